@@ -86,7 +86,9 @@ class Gen:
             return "(%s into %s)" % (self.num(sc, d - 1), f)
         if r.chance(1, 3):
             self.note("textfn")
-            k2 = r.below(5)
+            k2 = r.below(6)
+            if k2 == 5:
+                return "random(%s)" % self.num(sc, d - 1)
             if k2 == 0:
                 return "round(%s)" % self.num(sc, d - 1)
             if k2 == 1:
